@@ -37,7 +37,7 @@ func init() {
 			"An epoch is non-trivial if >= 2 species stored innovations in it; distinct by the interleaving signature (order of " +
 			"ReproduceStart / InnovationStored / ReproduceEnd events by species).",
 		Assumptions: []string{"the race detector reports only races on accesses that happened in the interleavings produced", "non-modular genomes",
-			"porcupine timeout (60 s per history) is inconclusive, not a violation"},
+			"porcupine timeout (300 s per history; the list partition is handed to it only up to 12 operations, it is decided exactly anyway) is inconclusive, not a violation"},
 		Cases: func(tier string) int {
 			if tier == "quick" {
 				return 96
@@ -433,15 +433,15 @@ func c16Histories(c *Ctx) {
 			}
 		}
 		for _, op := range ops {
-			if op.Input.(regInput).Op < 2 || listOps <= 18 {
+			if op.Input.(regInput).Op < 2 || listOps <= 12 {
 				forPorcupine = append(forPorcupine, op)
 			}
 		}
-		res, _ := porcupine.CheckOperationsVerbose(registryModel(initInnov, initNode), forPorcupine, 60*time.Second)
+		res, _ := porcupine.CheckOperationsVerbose(registryModel(initInnov, initNode), forPorcupine, 300*time.Second)
 		switch res {
 		case porcupine.Ok:
 			c.Count("histories.ok", 1)
-			if listOps <= 18 {
+			if listOps <= 12 {
 				c.Count("histories.list_also_by_porcupine", 1)
 			}
 		case porcupine.Unknown:
